@@ -302,6 +302,8 @@ func (o *structFieldsJSON) unmarshalKeys(data []byte) error {
 
 	var keys []string
 
+	seen := make(map[string]bool)
+
 	for {
 		token, err = decoder.Token()
 		if err != nil {
@@ -317,7 +319,12 @@ func (o *structFieldsJSON) unmarshalKeys(data []byte) error {
 			return fmt.Errorf("expected string, found %T", token)
 		}
 
-		keys = append(keys, key)
+		// a repeated member name is held once in Fields (the last
+		// value wins), so it must be recorded only once in Keys
+		if !seen[key] {
+			seen[key] = true
+			keys = append(keys, key)
+		}
 
 		if err := skipValue(decoder); err != nil {
 			return err
